@@ -16,5 +16,8 @@ package nsqlookupd
 //@   ensures[short-read-closes-silently] mIOLoops == old(mIOLoops) && rfErr != nil ==> wN == old(wN) && wCalls == old(wCalls)
 //@   ensures[bad-magic-answered] mIOLoops == old(mIOLoops) && rfErr == nil ==> wN > old(wN) || wErrs > old(wErrs)
 //@   ensures[bad-magic-frame] mIOLoops == old(mIOLoops) && rfErr == nil && wErrs == old(wErrs) ==> wN == old(wN) + 4 + 14 && sbe32(wOut, old(wN)) == 14
+//   (round 5) exactly the magic "  V1" is served - final(protocolMagic) = the string made of the four bytes read
+//@   ensures[only-the-v1-magic-is-served] mIOLoops == old(mIOLoops) + 1 ==> final(protocolMagic) == "  V1"
+//@   ensures[the-v1-magic-is-served-or-the-read-failed] mIOLoops == old(mIOLoops) && rfErr == nil ==> final(protocolMagic) != "  V1"
 //@   ensures[served-by-v1-on-this-conn] mIOLoops == old(mIOLoops) + 1 ==> dyntype(mLoopProt) == typetag("*LookupProtocolV1") && unbox(mLoopProt, "*LookupProtocolV1").nsqlookupd == old(p.nsqlookupd) &&
 //@        dyntype(mLoopClient) == typetag("*ClientV1") && unbox(mLoopClient, "*ClientV1").Conn == conn
